@@ -70,8 +70,16 @@ func OrdValue(p *load.Program) *report.RuleResult {
 				continue
 			}
 			name := p.FuncName(fn)
-			if fn.Name() == "begin" {
-				// container opener: its closer is end(); checked below
+			pushesCtx := false
+			for _, b := range fn.Blocks {
+				for _, in := range b.Instrs {
+					if calleeIs(in, "ctxstack", "push") {
+						pushesCtx = true
+					}
+				}
+			}
+			if pushesCtx {
+				// container opener (whatever it is called): its closer is the method that pops; checked below
 				r.OK(name, p.Pos(fn.Pos()), "container opener", "closed by "+tn+".end (checked separately)")
 				continue
 			}
@@ -99,23 +107,40 @@ func OrdValue(p *load.Program) *report.RuleResult {
 			}
 		}
 		// ORD-CONTAINER: begin pushes ctx => end pops ctx and calls endValue on all success exits
-		bg, en := methodByName(p, tn, "begin"), methodByName(p, tn, "end")
+		// the opener and the closer by what they do, not by name: the method of T that pushes the
+		// context (and opens a value) and the one that pops it
+		var bg, en *ssa.Function
+		for _, fn := range sortedFuncs(p) {
+			if recvTypeName(fn) != tn || p.InTest(fn) {
+				continue
+			}
+			for _, b := range fn.Blocks {
+				for _, in := range b.Instrs {
+					if calleeIs(in, "ctxstack", "push") && bg == nil {
+						bg = fn
+					}
+					if calleeIs(in, "ctxstack", "pop") && en == nil {
+						en = fn
+					}
+				}
+			}
+		}
 		if bg == nil || en == nil {
-			missing(r, tn+".begin/end", "container helpers not found")
+			missing(r, tn+" container opener/closer", "no method pushes / pops the context stack")
 			continue
 		}
 		pushes := false
 		for _, b := range bg.Blocks {
 			for _, in := range b.Instrs {
-				if calleeIs(in, "ctxstack", "push") {
+				if calleeIs(in, tn, "beginValue") {
 					pushes = true
 				}
 			}
 		}
 		if !pushes {
-			r.Bad(p.FuncName(bg), p.Pos(bg.Pos()), "begin pushes the context", "begin does not push the writer context, so End*/IsInStruct/FieldName checks see the wrong container")
+			r.Bad(p.FuncName(bg), p.Pos(bg.Pos()), "begin pushes the context", "the method that pushes the writer context does not open a value with beginValue: a container would be written without separator, field name and annotations")
 		} else {
-			r.OK(p.FuncName(bg), p.Pos(bg.Pos()), "begin pushes the context", "ctx.push present")
+			r.OK(p.FuncName(bg), p.Pos(bg.Pos()), "begin pushes the context", "the method that opens a container's value pushes the context")
 		}
 		ff := ssau.ComputeFacts(en, ssau.StoreKills)
 		ev := ssau.MustEvents(en, func(in ssa.Instruction) []string {
@@ -449,6 +474,22 @@ func OrdPopGuard(p *load.Program) *report.RuleResult {
 						}
 					}
 				}
+				if by == "" {
+					// v, ok := stack.peek().(*T) with ok true: a nil interface fails every type assertion
+					for _, b2 := range fn.Blocks {
+						for _, in2 := range b2.Instrs {
+							ta, ok := in2.(*ssa.TypeAssert)
+							if !ok || !ta.CommaOk || ssau.Path(ta.X) != sp+".peek()" {
+								continue
+							}
+							for _, ref := range *ta.Referrers() {
+								if e, ok := ref.(*ssa.Extract); ok && e.Index == 1 && facts.Has("true", ssau.Path(e), "") {
+									by = "a comma-ok type assertion on peek() succeeded, so peek() is not nil"
+								}
+							}
+						}
+					}
+				}
 				if by != "" {
 					r.Add(report.Obligation{Key: key, Func: name, Pos: instrPos(p, in), What: what, Status: report.Discharged, By: by})
 				} else {
@@ -463,6 +504,10 @@ func OrdPopGuard(p *load.Program) *report.RuleResult {
 
 // paramAlwaysNonZero: every call site of fn in the module passes a non-zero constant for the parameter.
 func paramAlwaysNonZero(p *load.Program, fn *ssa.Function, param string) bool {
+	return paramAlwaysNonZeroD(p, fn, param, 0)
+}
+
+func paramAlwaysNonZeroD(p *load.Program, fn *ssa.Function, param string, depth int) bool {
 	idx := -1
 	for i, pr := range fn.Params {
 		if pr.Name() == param {
@@ -482,7 +527,14 @@ func paramAlwaysNonZero(p *load.Program, fn *ssa.Function, param string) bool {
 				}
 				n++
 				v, ok := ssau.ConstInt(c.Common().Args[idx])
-				if !ok || v == 0 {
+				if !ok {
+					// a wrapper that passes its own parameter on (end -> endContainer): decided at the wrapper's callers
+					if prm, isPrm := c.Common().Args[idx].(*ssa.Parameter); isPrm && depth < 2 && paramAlwaysNonZeroD(p, caller, prm.Name(), depth+1) {
+						continue
+					}
+					return false
+				}
+				if v == 0 {
 					return false
 				}
 			}
